@@ -7,230 +7,25 @@ import EdbVerif.Lemmas.QuoteDollar
 namespace EdbVerif.Lex
 open EdbVerif.Quote
 
-theorem checkProhibited_none (c : Char) (e : Bool) (h0 : c.toNat ≠ 0) (hb : isBidi c = false) :
-    checkProhibited c e = none := by
-  simp [checkProhibited, h0, hb]
-
-theorem flatMap_single (s : List Char) : s.flatMap (fun c => [c]) = s := by
-  induction s with
-  | nil => rfl
-  | cons c cs ih => simp [List.flatMap_cons, ih]
-
-/-! ### hex digits inside a string body -/
-
-theorem hexDigit_body : ∀ k : Fin 16,
-    hexDigit k.val ≠ '\\' ∧ hexDigit k.val ≠ '\'' ∧ hexDigit k.val ≠ '"' ∧
-    checkProhibited (hexDigit k.val) true = none := by decide
-
-theorem scanOK_hex (q : Char) (hq : q = '\'' ∨ q = '"') (k : Nat) (hk : k < 16) (l : List Char)
-    (hl : l ≠ []) : scanOK q (hexDigit k :: l) = scanOK q l := by
-  obtain ⟨h1, h2, h3, h4⟩ := hexDigit_body ⟨k, hk⟩
-  have hne : hexDigit k ≠ q := by rcases hq with rfl | rfl <;> assumption
-  cases l with
-  | nil => exact absurd rfl hl
-  | cons d ds => simp [scanOK, h1, hne, h4]
-
-theorem scanOK_hex1 (q : Char) (hq : q = '\'' ∨ q = '"') (k : Nat) (hk : k < 16) :
-    scanOK q [hexDigit k] = true := by
-  obtain ⟨h1, h2, h3, h4⟩ := hexDigit_body ⟨k, hk⟩
-  have hne : hexDigit k ≠ q := by rcases hq with rfl | rfl <;> assumption
-  simp [scanOK, h1, hne, h4]
-
-/-! ### the escapes `repr` emits -/
-
-theorem strEscape_x (n : Nat) (hn : n < 128) (h0 : n ≠ 0) (tl : List Char) :
-    strEscape ('x' :: (hex2 n ++ tl)) = .ok ([Char.ofNat n], 3, false) := by
-  have := parseHex_hex2 n (by omega)
-  simp only [hex2] at this
-  simp only [strEscape, hex2, List.cons_append, List.nil_append, this]
-  have : ¬ (n > 127 ∨ n = 0) := by omega
-  simp [this]
-
-theorem charValid (c : Char) : c.toNat < 0xd800 ∨ (0xdfff < c.toNat ∧ c.toNat < 0x110000) := by
-  have := c.valid
-  simp only [UInt32.isValidChar, Nat.isValidChar] at this
-  exact this
-
-theorem escChar?_toNat (c : Char) (h0 : c.toNat ≠ 0) : escChar? c.toNat = some c := by
-  have := charValid c
-  simp [escChar?, h0, this, Char.ofNat_toNat]
-
-theorem strEscape_u (c : Char) (hn : c.toNat < 65536) (h0 : c.toNat ≠ 0) (tl : List Char) :
-    strEscape ('u' :: (hex4 c.toNat ++ tl)) = .ok ([c], 5, false) := by
-  have := parseHex_hex4 c.toNat hn
-  simp only [hex4] at this
-  simp only [strEscape, hex4, List.cons_append, List.nil_append, this]
-  simp [escChar?_toNat c h0]
-
-theorem strEscape_U (c : Char) (h0 : c.toNat ≠ 0) (tl : List Char) :
-    strEscape ('U' :: (hex8 c.toNat ++ tl)) = .ok ([c], 9, false) := by
-  have hlt : c.toNat < 4294967296 := by have := charValid c; omega
-  have := parseHex_hex8 c.toNat hlt
-  simp only [hex8, hex4, List.cons_append, List.nil_append] at this
-  simp only [strEscape, hex8, hex4, List.cons_append, List.nil_append, this]
-  simp [escChar?_toNat c h0]
-
-theorem unqPiece_x (c : Char) (hn : c.toNat < 128) (h0 : c.toNat ≠ 0) :
-    UnqPiece ('\\' :: 'x' :: hex2 c.toNat) [c] := by
-  intro tl
-  have h := strEscape_x c.toNat hn h0 tl
-  simp only [List.cons_append, unqStr, Bool.false_and, Bool.false_eq_true, if_false, if_true, h]
-  simp only [hex2, List.cons_append, List.nil_append, unqStr, Char.ofNat_toNat]
-  cases unqStr 0 false tl <;> rfl
-
-theorem unqPiece_u (c : Char) (hn : c.toNat < 65536) (h0 : c.toNat ≠ 0) :
-    UnqPiece ('\\' :: 'u' :: hex4 c.toNat) [c] := by
-  intro tl
-  have h := strEscape_u c hn h0 tl
-  simp only [List.cons_append, unqStr, Bool.false_and, Bool.false_eq_true, if_false, if_true, h]
-  simp only [hex4, List.cons_append, List.nil_append, unqStr]
-  cases unqStr 0 false tl <;> rfl
-
-theorem unqPiece_U (c : Char) (h0 : c.toNat ≠ 0) :
-    UnqPiece ('\\' :: 'U' :: hex8 c.toNat) [c] := by
-  intro tl
-  have h := strEscape_U c h0 tl
-  simp only [List.cons_append, unqStr, Bool.false_and, Bool.false_eq_true, if_false, if_true, h]
-  simp only [hex8, hex4, List.cons_append, List.nil_append, unqStr]
-  cases unqStr 0 false tl <;> rfl
-
-theorem scanOK_bs (q d : Char) (hd : d ≠ '(') (l : List Char) :
-    scanOK q ('\\' :: d :: l) = scanOK q l := by
-  simp [scanOK, hd]
-
-theorem scanOK_hex4 (q : Char) (hq : q = '\'' ∨ q = '"') (n : Nat) (l : List Char) (hl : l ≠ []) :
-    scanOK q (hex4 n ++ l) = scanOK q l := by
-  simp only [hex4, List.cons_append, List.nil_append]
-  rw [scanOK_hex q hq _ (by omega) _ (by simp), scanOK_hex q hq _ (by omega) _ (by simp),
-    scanOK_hex q hq _ (by omega) _ (by simp), scanOK_hex q hq _ (by omega) _ hl]
-
-theorem scanOK_hex4' (q : Char) (hq : q = '\'' ∨ q = '"') (n : Nat) : scanOK q (hex4 n) = true := by
-  simp only [hex4]
-  rw [scanOK_hex q hq _ (by omega) _ (by simp), scanOK_hex q hq _ (by omega) _ (by simp),
-    scanOK_hex q hq _ (by omega) _ (by simp), scanOK_hex1 q hq _ (by omega)]
-
-theorem scanOK_x (q : Char) (hq : q = '\'' ∨ q = '"') (n : Nat) :
-    scanOK q ('\\' :: 'x' :: hex2 n) = true := by
-  rw [scanOK_bs q 'x' (by decide), hex2, scanOK_hex q hq _ (by omega) _ (by simp),
-    scanOK_hex1 q hq _ (by omega)]
-
-theorem scanOK_u (q : Char) (hq : q = '\'' ∨ q = '"') (n : Nat) :
-    scanOK q ('\\' :: 'u' :: hex4 n) = true := by
-  rw [scanOK_bs q 'u' (by decide), scanOK_hex4' q hq]
-
-theorem scanOK_U (q : Char) (hq : q = '\'' ∨ q = '"') (n : Nat) :
-    scanOK q ('\\' :: 'U' :: hex8 n) = true := by
-  rw [scanOK_bs q 'U' (by decide), hex8, scanOK_hex4 q hq _ _ (by simp [hex4]), scanOK_hex4' q hq]
-
-/-! ### one character of `repr` -/
-
-/-- what the `repr` branch needs of one character: not NUL; not one of the
-    non-printable code points U+0080..U+00FF (printed `\\xNN`, which the tokenizer
-    only accepts below 0x80); and a bidi control must not be "printable" (CPython
-    never says so: they are category Cf) -/
-def reprCharOK (P : PyUnicode) (c : Char) : Bool :=
-  c.toNat ≠ 0 && !(0x80 ≤ c.toNat && c.toNat ≤ 0xff && !pyIsPrintable P c) &&
-  !(isBidi c && pyIsPrintable P c)
-
-theorem isBidi_range (c : Char) (h : isBidi c = true) : 0x202A ≤ c.toNat := by
-  simp [isBidi] at h; omega
-
-theorem reprChar_piece (P : PyUnicode) (q c : Char) (hq : q = '\'' ∨ q = '"')
-    (h : reprCharOK P c = true) :
-    scanOK q (reprChar P q c) = true ∧ UnqPiece (reprChar P q c) [c] := by
-  simp only [reprCharOK, Bool.and_eq_true, Bool.not_eq_true', decide_eq_true_eq] at h
-  obtain ⟨⟨h0, hx⟩, hbp⟩ := h
-  by_cases h1 : c = q ∨ c = '\\'
-  · have hr : reprChar P q c = ['\\', c] := by simp [reprChar, h1]
-    rw [hr]
-    have hc : c = '\'' ∨ c = '"' ∨ c = '\\' := by
-      rcases h1 with rfl | rfl
-      · rcases hq with rfl | rfl <;> simp
-      · simp
-    refine ⟨?_, unqPiece_esc c c ?_⟩
-    · rcases hc with rfl | rfl | rfl <;> simp [scanOK]
-    · intro tl; rcases hc with rfl | rfl | rfl <;> simp [strEscape]
-  have hnq : c ≠ q := fun e => h1 (Or.inl e)
-  have hnb : c ≠ '\\' := fun e => h1 (Or.inr e)
-  by_cases h2 : c = '\t'
-  · subst h2
-    have hr : reprChar P q '\t' = ['\\', 't'] := by simp [reprChar, hnq]
-    rw [hr]; exact ⟨by simp [scanOK], unqPiece_esc 't' '\t' (fun tl => by simp [strEscape])⟩
-  by_cases h3 : c = '\n'
-  · subst h3
-    have hr : reprChar P q '\n' = ['\\', 'n'] := by simp [reprChar, hnq]
-    rw [hr]; exact ⟨by simp [scanOK], unqPiece_esc 'n' '\n' (fun tl => by simp [strEscape])⟩
-  by_cases h4 : c = '\r'
-  · subst h4
-    have hr : reprChar P q '\r' = ['\\', 'r'] := by simp [reprChar, hnq]
-    rw [hr]; exact ⟨by simp [scanOK], unqPiece_esc 'r' '\r' (fun tl => by simp [strEscape])⟩
-  by_cases h5 : c.toNat < 32 ∨ c.toNat = 0x7f
-  · have hr : reprChar P q c = '\\' :: 'x' :: hex2 c.toNat := by simp [reprChar, h1, h2, h3, h4, h5]
-    rw [hr]
-    exact ⟨scanOK_x q hq _, unqPiece_x c (by omega) h0⟩
-  by_cases h6 : c.toNat < 0x7f
-  · have hr : reprChar P q c = [c] := by simp [reprChar, h1, h2, h3, h4, h5, h6]
-    rw [hr]
-    have hb : isBidi c = false := by
-      cases hb : isBidi c with
-      | false => rfl
-      | true => have := isBidi_range c hb; omega
-    exact ⟨by simp [scanOK, hnb, hnq, checkProhibited_none c true h0 hb], unqPiece_plain c hnb⟩
-  by_cases h7 : pyIsPrintable P c = true
-  · have hr : reprChar P q c = [c] := by simp [reprChar, h1, h2, h3, h4, h5, h6, h7]
-    rw [hr]
-    have hb : isBidi c = false := by
-      cases hb : isBidi c with
-      | false => rfl
-      | true => simp [hb, h7] at hbp
-    exact ⟨by simp [scanOK, hnb, hnq, checkProhibited_none c true h0 hb], unqPiece_plain c hnb⟩
-  have h7' : pyIsPrintable P c = false := by simpa using h7
-  by_cases h8 : c.toNat ≤ 0xff
-  · exfalso
-    simp [h7'] at hx
-    omega
-  by_cases h9 : c.toNat ≤ 0xffff
-  · have hr : reprChar P q c = '\\' :: 'u' :: hex4 c.toNat := by
-      simp [reprChar, h1, h2, h3, h4, h5, h6, h7', h8, h9]
-    rw [hr]
-    exact ⟨scanOK_u q hq _, unqPiece_u c (by omega) h0⟩
-  · have hr : reprChar P q c = '\\' :: 'U' :: hex8 c.toNat := by
-      simp [reprChar, h1, h2, h3, h4, h5, h6, h7', h8, h9]
-    rw [hr]
-    exact ⟨scanOK_U q hq _, unqPiece_U c h0⟩
-
-theorem reprQuote_cases (s : List Char) : reprQuote s = '\'' ∨ reprQuote s = '"' := by
-  unfold reprQuote; split <;> simp
-
-theorem pyRepr_lex (U : UClass) (P : PyUnicode) (s rest : List Char)
-    (h : ∀ c ∈ s, reprCharOK P c = true) :
-    lexOne U (pyRepr P s ++ rest) = .ok (⟨.str, .str s⟩, rest) := by
-  have hq := reprQuote_cases s
-  have hqb : reprQuote s ≠ '\\' := by rcases hq with e | e <;> rw [e] <;> decide
-  have := lexString_pieces (reprQuote s) hqb (reprChar P (reprQuote s)) s rest
-    (fun c hc => (reprChar_piece P _ c hq (h c hc)).1) (fun c hc => (reprChar_piece P _ c hq (h c hc)).2)
-  simp only [pyRepr, List.cons_append, List.append_assoc, List.nil_append]
-  rcases hq with e | e
-  · rw [e] at this ⊢; rw [lexOne_quote]; simpa using this
-  · rw [e] at this ⊢; rw [lexOne_dquote]; simpa using this
-
 /-! ### `visit_Constant` -/
 
-/-- The strings `visit_Constant` prints correctly.  With a non-printable
-    control in the string (the `repr` branch): see `reprCharOK`.  Otherwise: no
-    bidi control (they are written raw), and, when the string holds both kinds
-    of quote (dollar-quoting), `dollarExpressible`. -/
-def constExpressible (P : PyUnicode) (s : List Char) : Bool :=
-  if s.any isNonPrintableRE then s.all (reprCharOK P)
-  else s.all (fun c => !isBidi c) &&
-    (if s.contains '\'' && s.contains '"' then dollarExpressible s else true)
+/-- The strings `visit_Constant` prints correctly: every string without NUL
+    (NUL cannot be written in any EdgeQL string literal: `\\x00` and `\\u0000`
+    are rejected by the tokenizer). -/
+def constExpressible (s : List Char) : Bool := s.all (fun c => c.toNat ≠ 0)
+
+theorem notNP_facts (c : Char) (h : isNonPrintableRE c = false) : c.toNat ≠ 0 ∧ isBidi c = false := by
+  simp [isNonPrintableRE] at h
+  refine ⟨by omega, ?_⟩
+  simp [isBidi]
+  omega
 
 theorem lexOne_raw (U : UClass) (q : Char) (hq : q = '\'' ∨ q = '"') (cs : List Char) :
     lexOne U ('r' :: q :: cs) = lexString true false q cs := by
   rcases hq with rfl | rfl <;>
     simp [lexOne, lexIdent, identLoop, isAlpha, isAsciiLetter]
 
-theorem dollarQuoteLiteral_plain (s : List Char) (h : contains ['$', '$'] s = false) :
+theorem dollarQuoteLiteral_plain (s : List Char) (h : contains ['$', '$'] (s ++ ['$']) = false) :
     dollarQuoteLiteral s = some ('$' :: '$' :: s ++ ['$', '$']) := by
   simp [dollarQuoteLiteral, dollarTag, dollarLoop, h]
 
@@ -257,35 +52,37 @@ theorem plainQuoted_lex (U : UClass) (q : Char) (hq : q = '\'' ∨ q = '"') (s r
     · simp only [List.cons_append, List.append_assoc, List.nil_append, lexOne_quote]; simpa using this
     · simp only [List.cons_append, List.append_assoc, List.nil_append, lexOne_dquote]; simpa using this
 
-theorem ppStr_lex (U : UClass) (P : PyUnicode) (s q rest : List Char)
-    (hq : ppStr P s = some q) (he : constExpressible P s = true) :
+theorem ppStr_lex (U : UClass) (s q rest : List Char)
+    (hq : ppStr s = some q) (he : constExpressible s = true) :
     lexOne U (q ++ rest) = .ok (⟨.str, .str s⟩, rest) := by
-  unfold constExpressible at he
+  have h0 : ∀ c ∈ s, c.toNat ≠ 0 := by simpa [constExpressible] using he
   unfold ppStr at hq
   by_cases hnp : s.any isNonPrintableRE = true
-  · simp only [hnp, if_true] at hq he
+  · simp only [hnp, if_true] at hq
     simp at hq; subst hq
-    exact pyRepr_lex U P s rest (by simpa using he)
-  · simp only [hnp] at hq he
-    simp only [Bool.false_eq_true, if_false, Bool.and_eq_true, List.all_eq_true, Bool.not_eq_true'] at hq he
-    obtain ⟨hbidi, hdol⟩ := he
-    have hp : ∀ c ∈ s, checkProhibited c true = none := by
+    exact quoteLiteral_lex U s rest h0
+  · simp only [hnp] at hq
+    simp only [Bool.false_eq_true, if_false] at hq
+    have hnp' : ∀ c ∈ s, isNonPrintableRE c = false := by
       intro c hc
-      refine checkProhibited_none c true ?_ (hbidi c hc)
-      intro h0
-      have : isNonPrintableRE c = true := by simp [isNonPrintableRE, h0]
-      exact hnp (List.any_eq_true.mpr ⟨c, hc, this⟩)
+      cases hx : isNonPrintableRE c with
+      | false => rfl
+      | true => exact absurd (List.any_eq_true.mpr ⟨c, hc, hx⟩) hnp
+    have hp : ∀ c ∈ s, checkProhibited c true = none := fun c hc =>
+      checkProhibited_none c true (notNP_facts c (hnp' c hc)).1 (notNP_facts c (hnp' c hc)).2
+    have hpf : ∀ c ∈ s, checkProhibited c false = none := fun c hc =>
+      checkProhibited_none c false (notNP_facts c (hnp' c hc)).1 (notNP_facts c (hnp' c hc)).2
     by_cases hs : s.contains '\'' = true
     · by_cases hd : s.contains '"' = true
       · -- both quotes: dollar quoting
-        simp only [hs, hd, Bool.not_true, Bool.false_eq_true, if_false, Bool.and_self, if_true] at hq hdol
+        simp only [hs, hd, Bool.not_true, Bool.false_eq_true, if_false] at hq
         have hq' : dollarQuoteLiteral s = some q := by
-          by_cases hc : contains ['$', '$'] s = true
+          by_cases hc : contains ['$', '$'] (s ++ ['$']) = true
           · simpa [hc] using hq
-          · have hc' : contains ['$', '$'] s = false := by simpa using hc
+          · have hc' : contains ['$', '$'] (s ++ ['$']) = false := by simpa using hc
             simp [hc'] at hq
             rw [dollarQuoteLiteral_plain s hc', ← hq]; simp
-        exact dollarQuote_lex U s q rest hq' hdol
+        exact dollarQuote_lex U s q rest hq' (by simpa [dollarExpressible] using hpf)
       · have hd' : s.contains '"' = false := by simpa using hd
         have hnq : ∀ c ∈ s, c ≠ '"' := by
           intro c hc e; subst e; simp at hd'; exact hd' hc
